@@ -106,6 +106,23 @@ static void make(Session& s, const Job& j, const std::string& p) {
 	al.logger = Logger(std::shared_ptr<LoggerImpl>(new RecLogger(p)));
 	s.ip.setActionLanguage(al);
 	s.mon.ip = &s.ip; s.mon.p = p;
+	if (j.flag("lambda-after") || j.flag("lambda-before")) {
+		// the lambda front end of the monitor API (Interpreter::on()): one callback per notice, either all 'before' or all 'after' ones
+		bool after = j.flag("lambda-after");
+		LambdaMonitor& lm = s.ip.on();
+		const char* B = after ? "A" : "B";
+		std::string pp = p + "LM ";
+		lm.processEvent([pp](const std::string&, const Event& ev) { *out << pp << "E " << oneline(ev.name) << "\n"; });
+		lm.stableConfiguration([pp](const std::string&) { *out << pp << "S\n"; });
+		lm.microStep([pp, B](const std::string&) { *out << pp << "M" << B << "\n"; }, after);
+		lm.completion([pp, B](const std::string&) { *out << pp << "K" << B << "\n"; }, after);
+		lm.enterState([pp, B](const std::string&, const std::string&, const XERCESC_NS::DOMElement* st) { *out << pp << "N" << B << " " << nm(st) << "\n"; }, after);
+		lm.exitState([pp, B](const std::string&, const std::string&, const XERCESC_NS::DOMElement* st) { *out << pp << "X" << B << " " << nm(st) << "\n"; }, after);
+		lm.transition([pp, B](const std::string&, const XERCESC_NS::DOMElement* t) { *out << pp << "T" << B << " " << DOMUtils::xPathForNode(t) << "\n"; }, after);
+		lm.executeContent([pp, B](const std::string&, const XERCESC_NS::DOMElement* t) { *out << pp << "C" << B << " " << DOMUtils::xPathForNode(t) << "\n"; }, after);
+		lm.invoke([pp, B](const std::string&, const XERCESC_NS::DOMElement* e, const std::string& id) { *out << pp << "I" << B << " " << DOMUtils::xPathForNode(e) << " " << id << "\n"; }, after);
+		lm.uninvoke([pp, B](const std::string&, const XERCESC_NS::DOMElement* e, const std::string& id) { *out << pp << "U" << B << " " << DOMUtils::xPathForNode(e) << " " << id << "\n"; }, after);
+	}
 	if (!j.flag("nomon")) {
 		if (j.flag("copymon")) s.mon.copyToInvokers(true);
 		s.ip.addMonitor(&s.mon);
